@@ -53,6 +53,8 @@ RULE = ("record lists (3-9 records over a small key pool so that keys repeat) pr
 LEVEL = {"error": 0, "warning": 1}
 LOCAL_TAGS = dict(common.TAGS, UserWarning=11)
 MOCHI = "\ufffd"
+# characters str.splitlines() breaks at but that are no line ends: only "\n" ends a line
+EXOTIC = ["\x0b", "\x0c", "\x1c", "\x1d", "\x1e", "\x85", "\u2028", "\u2029"]
 
 
 # ------------------------------------------------------------------ helpers ---
@@ -82,6 +84,13 @@ class Fmt:
     header = footer = ""
     blank_ok = True          # blank lines between records are whitespace
     junk_text = "junk text"  # a line the parser cannot parse
+    exotic = EXOTIC          # what may stand in values, comments and junk of the format
+
+    def jtext(self, rec):
+        return "junk" + rec.get("exo", "") + " text"
+
+    def ctext(self, rec):
+        return "a" + rec.get("cexo", "") + " comment"
     viols = ("mochi",)
     android = False
     extras = (None,)
@@ -97,7 +106,7 @@ class Fmt:
 
     def value(self, rec):
         """(spelling of the value in the file, expected check results [(level, message)])"""
-        v, viol = rec["val"], rec["viol"]
+        v, viol = rec["val"] + rec.get("exo", ""), rec["viol"]
         if viol == "mochi":
             return v + MOCHI + "z", [("warning", f"{MOCHI} in: {key_text(self.key_of(rec))}")]
         return v, []
@@ -107,7 +116,7 @@ class Fmt:
 
     def junk(self, rec):
         """(chunk, text of the junk as lint reports it or None if only the prefix is known)"""
-        return self.junk_text + "\n", self.junk_text + "\n"
+        return self.jtext(rec) + "\n", self.jtext(rec) + "\n"
 
 
 class Props(Fmt):
@@ -117,10 +126,10 @@ class Props(Fmt):
     def comment(self, rec):
         if rec["viol"] in ("plural", "plural-ok"):
             return "# LOCALIZATION NOTE: see Localization_and_Plurals\n"
-        return "# a comment\n" if rec["comment"] else ""
+        return "# " + self.ctext(rec) + "\n" if rec["comment"] else ""
 
     def value(self, rec):
-        v, viol = rec["val"], rec["viol"]
+        v, viol = rec["val"] + rec.get("exo", ""), rec["viol"]
         if viol == "escape":
             return v + "\\q" + "z", [("warning", "unknown escape sequence, \\q")]
         if viol == "plural":
@@ -140,11 +149,12 @@ class Props(Fmt):
 
 class Dtd(Fmt):
     name, ext = "dtd", ".dtd"
+    exotic = ["\x85", "\u2028", "\u2029"]   # the others are no XML characters
     viols = ("mochi", "amp", "amp2", "ref")
     extras = (None, None, ["android-dtd"])
 
     def value(self, rec):
-        v, viol = rec["val"], rec["viol"]
+        v, viol = rec["val"] + rec.get("exo", ""), rec["viol"]
         if viol == "amp":
             return v + " & z", [("warning", "can't parse en-US value"),
                                 ("error", "not well-formed (invalid token)")]
@@ -160,7 +170,7 @@ class Dtd(Fmt):
         return super().value(rec)
 
     def entity(self, rec):
-        c = "<!-- a comment -->\n" if rec["comment"] else ""
+        c = "<!-- " + self.ctext(rec) + " -->\n" if rec["comment"] else ""
         v, checks = self.value(rec)
         return c + '<!ENTITY %s "%s">\n' % (rec["key"], v), len(c), checks
 
@@ -173,7 +183,7 @@ class Ftl(Fmt):
         return ("-" if rec.get("term") else "") + rec["key"]
 
     def parts(self, rec):
-        v, viol = rec["val"], rec["viol"]
+        v, viol = rec["val"] + rec.get("exo", ""), rec["viol"]
         attrs, checks = [], []
         if viol == "mochi":
             v, checks = v + MOCHI + "z", [("warning", f"{MOCHI} in: {self.key_of(rec)}")]
@@ -202,7 +212,7 @@ class Ftl(Fmt):
 
     def entity(self, rec):
         # the span of a Fluent entry starts at its attached comment
-        c = "# a comment\n" if rec["comment"] else ""
+        c = "# " + self.ctext(rec) + "\n" if rec["comment"] else ""
         v, attrs, checks = self.parts(rec)
         text = c + self.key_of(rec) + " = " + v + "\n"
         for n, av in attrs:
@@ -210,7 +220,7 @@ class Ftl(Fmt):
         return text, 0, checks
 
     def junk(self, rec):
-        return self.junk_text + "\n", self.junk_text   # trailing white-space is stripped
+        return self.jtext(rec) + "\n", self.jtext(rec)   # trailing white-space is stripped
 
 
 class Ini(Fmt):
@@ -218,7 +228,7 @@ class Ini(Fmt):
     header = "[Strings]\n"
 
     def entity(self, rec):
-        c = "; a comment\n" if rec["comment"] else ""
+        c = "; " + self.ctext(rec) + "\n" if rec["comment"] else ""
         v, checks = self.value(rec)
         return c + rec["key"] + "=" + v + "\n", len(c), checks
 
@@ -228,7 +238,7 @@ class Inc(Fmt):
     blank_ok = False
 
     def entity(self, rec):
-        c = "# a comment\n" if rec["comment"] else ""
+        c = "# " + self.ctext(rec) + "\n" if rec["comment"] else ""
         v, checks = self.value(rec)
         return c + "#define " + rec["key"] + " " + v + "\n", len(c), checks
 
@@ -247,13 +257,13 @@ class Po(Fmt):
         return self.value(a)[0] == self.value(b)[0]
 
     def entity(self, rec):
-        c = "#. a comment\n" if rec["comment"] else ""
+        c = "#. " + self.ctext(rec) + "\n" if rec["comment"] else ""
         v, checks = self.value(rec)
         ctx = 'msgctxt "ctx"\n' if rec.get("term") else ""
         return c + ctx + 'msgid "%s"\nmsgstr "%s"\n\n' % (rec["key"], v), len(c), checks
 
     def junk(self, rec):
-        return self.junk_text + "\n\n", None
+        return self.jtext(rec) + "\n\n", None
 
 
 class Android(Fmt):
@@ -262,6 +272,7 @@ class Android(Fmt):
     footer = "</resources>\n"
     viols = ("mochi", "apos")
     android = True
+    exotic = []              # positions are (0, offset): no line index
 
     def filename(self, rng):
         return rng.choice(["strings.xml", "values/strings.xml", "strings-extra.xml"])
@@ -289,10 +300,13 @@ def gen_records(fmt, rng, extra):
     pool = rng.sample(KEYS, rng.randint(2, len(KEYS)))
     recs = []
     clean = rng.random() < 0.15
+
+    def exo():
+        return rng.choice(fmt.exotic) if fmt.exotic and rng.random() < 0.3 else ""
     for i in range(n):
         r = rng.random()
         if not clean and r < 0.15 and not (recs and recs[-1]["t"] != "ent"):
-            recs.append({"t": "junk"})
+            recs.append({"t": "junk", "exo": exo()})
             continue
         if fmt.blank_ok and r < 0.22 and recs and recs[-1]["t"] == "ent":
             recs.append({"t": "blank"})
@@ -308,7 +322,8 @@ def gen_records(fmt, rng, extra):
                "val2": "w%d" % rng.randint(0, 3),
                "viol": rng.choice(viols) if (not clean and rng.random() < 0.3) else None,
                "comment": rng.random() < 0.25, "sep": rng.choice([" = ", "=", ": ", ":"]),
-               "term": fmt.name in ("ftl", "po") and rng.random() < 0.2}
+               "term": fmt.name in ("ftl", "po") and rng.random() < 0.2,
+               "exo": exo(), "cexo": exo()}
         if rec["viol"] == "term-attrs":
             rec["term"] = True
         recs.append(rec)
@@ -400,7 +415,7 @@ def expected_results(fmt, recs, text, info, ref_recs, broken=False):
                 continue
             l, c = linecol(text, inf["start"])
             if inf["junk"] is None:
-                out.append((l, c, "error", ('Unparsed content "' + fmt.junk_text,)))
+                out.append((l, c, "error", ('Unparsed content "' + fmt.jtext(r),)))
             else:
                 l2, c2 = linecol(text, inf["start"] + len(inf["junk"]))
                 out.append((l, c, "error", 'Unparsed content "%s" from line %d column %d '
@@ -668,8 +683,8 @@ def synth_text(rng):
     parts, spans, text = [], [], ""
     for w in rng.sample(words, rng.randint(2, 6)):
         spans.append((len(text), len(text) + len(w)))
-        text += w + rng.choice([" ", "\n", " = ", "\n\n"])
-    text += "".join(rng.choice("xy \n") for _ in range(rng.randint(0, 12)))
+        text += w + rng.choice([" ", "\n", " = ", "\n\n"] + EXOTIC[:4] + EXOTIC[5:7])
+    text += "".join(rng.choice(list("xy \n\n") + EXOTIC) for _ in range(rng.randint(0, 12)))
     return text, spans
 
 
@@ -1278,6 +1293,14 @@ def run(chk, runner_ok):
                            "model (plugins); the harness runs with none installed")
     if runner_ok:
         rxsuite.run_rx(chk, groups=["c19"])
+    # record at most 8 failing inputs per failure family, so that every family shows
+    seen, record = {}, chk.fail
+
+    def fail(signature, case, detail):
+        seen[signature] = seen.get(signature, 0) + 1
+        if seen[signature] <= 8 or any(k["signature"] == signature for k in chk.known):
+            record(signature, case, detail)
+    chk.fail = fail
     tmp = tempfile.mkdtemp(prefix="verif_c19_")
     try:
         for suite, args in ((suite_hasparser, ()), (suite_position, ()), (suite_entity_small, ()),
